@@ -14,6 +14,19 @@ From PF Require Export Geom.Vec Check.Common.
 From PFGen Require Export Sdf SdfGeo.
 Import ListNotations.
 
+(* The same field Q as Geom/Vec.v's Q_carrier, with every result kept in lowest terms (Qred): the inputs are
+   dyadic, so numerators and denominators stay small instead of doubling in size at every operation. *)
+#[local] Instance Qr_carrier : Carrier Q | 0 := {|
+  c0 := 0%Q; c1 := 1%Q;
+  cadd := fun a b => Qred (a + b); cmul := fun a b => Qred (a * b); csub := fun a b => Qred (a - b);
+  copp := Qopp; cdiv := fun a b => Qred (a / b);
+  csqrt := Qsqrt; cabs := Qabs; cmax := Qmaxb; cmin := Qminb;
+  csin := Qsin; ccos := Qcos; cpi := Qpi;
+  cltb := Qltb; cleb := Qle_bool; ceqb := Qeq_bool;
+  cofZ := inject_Z;
+  cofQ := fun n d => Qred (Qmake n d)
+|}.
+
 (* m * 2^e *)
 Definition fq (m e : Z) : Q :=
   if (0 <=? e)%Z then inject_Z (m * 2 ^ e) else Qmake m (Z.to_pos (2 ^ (- e))).
@@ -50,8 +63,8 @@ Fixpoint eval (s : shape) : vec3 Q -> Q :=
   end.
 
 (* ---- closed-form membership, independent of the generated formulas.  Lt inside, Eq on the surface, Gt outside *)
-Definition qsq (x : Q) : Q := x * x.
-Definition d2 (p c : vec3 Q) : Q := qsq (v3x p - v3x c) + qsq (v3y p - v3y c) + qsq (v3z p - v3z c).
+Definition qsq (x : Q) : Q := Qred (x * x).
+Definition d2 (p c : vec3 Q) : Q := Qred (qsq (v3x p - v3x c) + qsq (v3y p - v3y c) + qsq (v3z p - v3z c)).
 Definition qmax (a b : Q) : Q := if Qle_bool a b then b else a.
 Definition qmin (a b : Q) : Q := if Qle_bool a b then a else b.
 Definition qpos (a : Q) : Q := qmax a 0.
@@ -67,13 +80,13 @@ Definition cone_side (a b : vec3 Q) (r1 r2 : Q) (p : vec3 Q) : comparison :=
   let dx := v3x b - v3x a in let dy := v3y b - v3y a in let dz := v3z b - v3z a in
   let wx := v3x p - v3x a in let wy := v3y p - v3y a in let wz := v3z p - v3z a in
   let dr := r2 - r1 in
-  let A := dx * dx + dy * dy + dz * dz - dr * dr in
-  let B := - (2 # 1) * (wx * dx + wy * dy + wz * dz) - (2 # 1) * r1 * dr in
-  let C := wx * wx + wy * wy + wz * wz - r1 * r1 in
+  let A := Qred (dx * dx + dy * dy + dz * dz - dr * dr) in
+  let B := Qred (- (2 # 1) * (wx * dx + wy * dy + wz * dz) - (2 # 1) * r1 * dr) in
+  let C := Qred (wx * wx + wy * wy + wz * wz - r1 * r1) in
   let g0 := C in let g1 := A + B + C in
   let m := qmin g0 g1 in
   let m := if Qle_bool A 0 then m
-           else let s := - B / ((2 # 1) * A) in
+           else let s := Qred (- B / ((2 # 1) * A)) in
                 if Qle_bool s 0 || Qle_bool 1 s then m else qmin m (A * s * s + B * s + C) in
   m ?= 0.
 
@@ -88,8 +101,8 @@ Fixpoint side (s : shape) (p : vec3 Q) : comparison :=
         + qsq (qpos (Qabs (v3z p - v3z c) - v3z b / (2 # 1))) ?= qsq r
   | SLine a b r =>
       let dx := v3x b - v3x a in let dy := v3y b - v3y a in let dz := v3z b - v3z a in
-      let l2 := dx * dx + dy * dy + dz * dz in
-      let t := ((v3x p - v3x a) * dx + (v3y p - v3y a) * dy + (v3z p - v3z a) * dz) / l2 in
+      let l2 := Qred (dx * dx + dy * dy + dz * dz) in
+      let t := Qred (((v3x p - v3x a) * dx + (v3y p - v3y a) * dy + (v3z p - v3z a) * dz) / l2) in
       let t := qmax 0 (qmin 1 t) in
       d2 p (V (v3x a + t * dx) (v3y a + t * dy) (v3z a + t * dz)) ?= qsq r
   | SPlane pos n h =>
